@@ -355,8 +355,12 @@ class TermBuilder:
             return None
         if useblk is not None:
             # a definition that reaches the use only around a back edge is loop-carried, not a branch alternative
-            for bd in (b1, b2):
+            for d_, bd in zip(defs, (b1, b2) if [d if d != ("ENTRY",) else (0, 0, True) for d in defs][0][0] == b1 else (b2, b1)):
                 if bd != useblk and useblk not in self.fwd_reach(bd):
+                    return None
+                # a second reaching definition in the block of the use itself lies after the use (one before it would be the
+                # only reaching definition): it arrives around the back edge (release builds: whole loop body in one block)
+                if bd == useblk and d_ != ("ENTRY",):
                     return None
 
         def sides(d):
@@ -421,8 +425,12 @@ class TermBuilder:
         if b1 == b2:
             return None
         if useblk is not None:
-            for bd in (b1, b2):
+            for d_, bd in zip(defs, (b1, b2) if [d if d != ("ENTRY",) else (0, 0, True) for d in defs][0][0] == b1 else (b2, b1)):
                 if bd != useblk and useblk not in self.fwd_reach(bd):
+                    return None
+                # a second reaching definition in the block of the use itself lies after the use (one before it would be the
+                # only reaching definition): it arrives around the back edge (release builds: whole loop body in one block)
+                if bd == useblk and d_ != ("ENTRY",):
                     return None
             if self.cfg.dominates(b1, b2) or self.cfg.dominates(b2, b1):
                 return None
